@@ -23,6 +23,8 @@ func runC20(p *core.Prog, r *core.Report) {
 	c20Nonces(c)
 	c20JSON(c)
 	c20Subset(c)
+	// key data stays the same object content across sessions: its accessors do not write it either
+	c09GetterPurity(c, "R09.4")
 }
 
 func c20Nonces(c *ctx) {
